@@ -178,6 +178,116 @@ def execute(init_table, ops, family="ember", universe=("g1", "g2", "g3")):
     return trace
 
 
+# ---------------------------------------------------------------- overlapping calls (MulticastConc.tla)
+class ConcNcp(FakeNcp):
+    """table writes stay pending until the schedule answers them (oldest first); `manual` off = answered at once (probing copies)"""
+    manual = True
+
+    def __init__(self, table, family="ember"):
+        super().__init__(table, family)
+        self.pending = []          # [future, index, entry]
+
+    async def setMulticastTableEntry(self, i, entry):
+        if not self.manual:
+            return await super().setMulticastTableEntry(i, entry)
+        await asyncio.sleep(0)
+        i = int(i)
+        self.writes.append({"idx": i, "grp": GNAME.get(int(entry.multicastId), "g?"), "ep": int(entry.endpoint)})
+        fut = asyncio.get_running_loop().create_future()
+        self.pending.append((fut, i, int(entry.multicastId), int(entry.endpoint)))
+        return await fut
+
+    def answer_oldest(self, ans):
+        fut, i, gid, ep = self.pending.pop(0)
+        if ans == "timeout":
+            fut.set_exception(asyncio.TimeoutError())
+        elif ans == "reject" or not 0 <= i < len(self.table):
+            fut.set_result([self._st(False)])
+        else:
+            self.table[i] = [gid, ep]
+            fut.set_result([self._st(True)])
+
+
+def execute_conc(init_table, ops, family="ember", universe=("g1", "g2", "g3")):
+    """ops: ("SubBegin", id, g) | ("UnsubBegin", id, g) | ("End", ans) | ("Probe",)"""
+    import bellows.multicast
+    global _LOOP
+    if _LOOP is None:
+        _LOOP = asyncio.new_event_loop()
+    loop = _LOOP
+    ncp = ConcNcp(init_table, family)
+    mc = bellows.multicast.Multicast(ncp)
+    _run(mc._initialize())
+    trace = [{"a": "Init", "tbl": ncp.view()}]
+    tasks, order = {}, []
+
+    def settle():
+        for _ in range(6):
+            _run(asyncio.sleep(0))
+
+    def outcome(tk):
+        if tk.cancelled():
+            return "exception:CancelledError"
+        e = tk.exception()
+        if e is None:
+            return _status_class(tk.result())
+        return "exception" if isinstance(e, asyncio.TimeoutError) else "exception:" + type(e).__name__
+    for op in ops:
+        ncp.writes = []
+        if op[0] in ("SubBegin", "UnsubBegin"):
+            _a, cid, g = op
+            fn = mc.subscribe if op[0] == "SubBegin" else mc.unsubscribe
+            n0 = len(ncp.pending)
+            tasks[cid] = loop.create_task(fn(GROUPS[g]))
+            settle()
+            if len(ncp.pending) > n0:
+                order.append(cid)
+            ev = {"a": op[0], "id": cid, "g": g, "ret": outcome(tasks[cid]) if tasks[cid].done() else "pending"}
+        elif op[0] == "End":
+            if not ncp.pending:
+                continue
+            cid = order.pop(0)
+            ncp.answer_oldest(op[1])
+            settle()
+            ev = {"a": "End", "id": cid, "ans": op[1], "ret": outcome(tasks[cid]) if tasks[cid].done() else "pending"}
+        else:
+            if ncp.pending:
+                continue
+            ncp.manual = False
+            try:
+                subs, free = probe(mc, universe)
+            finally:
+                ncp.manual = True
+            trace.append({"a": "Probe", "subs": subs, "free": free, "tbl": ncp.view(), "ret": "none", "wrote": []})
+            continue
+        ev["wrote"] = (ncp.writes[0] if len(ncp.writes) == 1 else {"idx": -1, "grp": "multiple", "ep": len(ncp.writes)}) if ncp.writes else []
+        ev["tbl"] = ncp.view()
+        trace.append(ev)
+    while ncp.pending:                 # never leave a coroutine suspended
+        ncp.answer_oldest("ok")
+        settle()
+    return trace
+
+
+def conc_schedules(quick):
+    """two or three overlapping calls on different groups: every order of begins and answers, every answer"""
+    out = []
+    calls2 = [(("SubBegin", 1, "g1"), ("SubBegin", 2, "g2")), (("SubBegin", 1, "g1"), ("UnsubBegin", 2, "g2")),
+              (("UnsubBegin", 1, "g1"), ("UnsubBegin", 2, "g2")), (("UnsubBegin", 1, "g1"), ("SubBegin", 2, "g3"))]
+    for a, b in calls2:
+        for a1 in ANSWERS:
+            for a2 in ANSWERS:
+                # both begun before either answer; and the second begun after the first's answer (sequential control)
+                out.append([a, b, ("End", a1), ("Probe",), ("End", a2), ("Probe",), ("SubBegin", 3, "g3"), ("End", "ok"), ("Probe",)])
+                out.append([a, ("End", a1), b, ("End", a2), ("Probe",)])
+    for a1 in ANSWERS:
+        for a2 in (("ok", "timeout") if quick else ANSWERS):
+            for a3 in (("ok", "reject") if quick else ANSWERS):
+                out.append([("SubBegin", 1, "g1"), ("SubBegin", 2, "g2"), ("SubBegin", 3, "g3"), ("End", a1), ("End", a2), ("End", a3), ("Probe",),
+                            ("UnsubBegin", 4, "g1"), ("SubBegin", 5, "g2"), ("End", "ok"), ("End", "ok"), ("Probe",)])
+    return out
+
+
 def init_tables(n, groups, stale=False):
     cells = list(groups) + ["free"]
     out = []
@@ -343,6 +453,27 @@ def run(ctx: Ctx):
                            ("Unsubscribe", g, "ok"), ("NcpChange", t1), ("Startup",), ("Unsubscribe", g2, "ok"), ("Subscribe", g, "ok")]
                     traces.append(execute(t1, ops, family))
                     metas.append({"family": family, "init": t1, "ops": ops})
+    # ---- overlapping calls on different groups (MulticastConc.tla): begins and answers in every order, every answer
+    ctx.model_check("MulticastConcMC", "MC_MulticastConc", constants={"Groups": '{"g1", "g2", "g3"}', "N": "2" if ctx.quick else "3", "MaxCalls": "3" if ctx.quick else "4"},
+                    invariants=("Owned", "Mirror", "TableUnique"), required_actions=("BeginG", "Finish"), workers=4)
+    cfg = T.write_cfg(ctx.workdir / "MC_MulticastConc_same.cfg", spec="SpecSame", constants={"Groups": '{"g1", "g2"}', "N": "2", "MaxCalls": "3"},
+                      invariants=("Owned", "Mirror", "TableUnique"))
+    res = T.run_tlc("MulticastConcMC", cfg, workdir=ctx.workdir, workers=2)
+    ctx.model_runs.append({"module": "MulticastConcMC", "config": "overlapping calls for the same group (counter-example expected)", **res.summary()})
+    ctx.notes["deviation_same_group_overlap"] = "TLC: " + (",".join(res.violated) or str(res.error_kind))
+    if res.error_kind != "invariant":
+        raise T.MachineryError(f"MulticastConcMC/SpecSame: expected a counter-example, got {res.error_kind}")
+    ctraces, cmetas = [], []
+    for family in ("ember", "sl"):
+        for n in (2, 3):
+            for tab in init_tables(n, groups):
+                if family == "sl" and tab.count("free") != 1:
+                    continue
+                for sched in conc_schedules(ctx.quick):
+                    ctraces.append(execute_conc(tab, sched, family))
+                    cmetas.append({"family": family, "init": tab, "ops": sched, "conc": True})
+    ctx.validate_traces("Trace_MulticastConc", ctraces, invariants=("Owned", "Mirror"), metas=cmetas, label="multicast overlapping",
+                        sig=lambda m, v, tr: "trace:MulticastConc:%s" % ((tr[v.stuck_at - 1] if v.stuck_at and v.stuck_at <= len(tr) else {}).get("a"),))
     # ---- random long histories beyond the model's bounds (code -> spec)
     big = ("g1", "g2", "g3", "g4", "g5")
     nrand = 60 if ctx.quick else 600
@@ -390,6 +521,11 @@ def run(ctx: Ctx):
 
 def replay(ctx: Ctx, data):
     m = data["replay"]["meta"]
+    if m.get("conc"):
+        tr = execute_conc(m["init"], [tuple(o) for o in m["ops"]], m["family"])
+        ctx.validate_traces("Trace_MulticastConc", [tr], invariants=("Owned", "Mirror"), metas=[m], label="multicast overlapping")
+        ctx.add_sample(tr)
+        return
     tr = execute(m["init"], [tuple(o) for o in m["ops"]], m["family"], ("g1", "g2", "g3", "g4", "g5"))
     ctx.validate_traces("Trace_Multicast", [tr], constants=CONST(("g1", "g2", "g3", "g4", "g5"), 8),
                         invariants=INVS, metas=[m], label="multicast", sig=sig)
